@@ -136,6 +136,7 @@ def run(res, drv, tier, seed):
         if bad:
             res.violation('failing-input', f'{engine} (warm_start={warm}): {bad}', {'request': canon, 'expected': bad}, key=f'zeros:{engine}')
     directed_tree_zeros(res, rng(seed, 'C10-tree'), tier)
+    directed_mechanism_zeros(res, rng(seed, 'C10-aim'), tier)
 
 
 def directed_tree_zeros(res, r, tier):
@@ -160,6 +161,63 @@ def directed_tree_zeros(res, r, tier):
         if bad:
             res.violation('failing-input', f'{engine} (warm_start=False): {bad}', {'request': canon, 'expected': bad}, key=f'zeros:{engine}')
             return
+
+
+def directed_mechanism_zeros(res, r, tier):
+    """a shipped mechanism that accepts `structural_zeros` (AIM) hands them to the estimator: the synthetic records and every answer of the
+    model it builds must respect them - also for zeros on attributes the workload never mentions"""
+    import contextlib, io
+    import pandas as pd
+    import mechs
+    from mbi import Domain, Dataset, FactoredInference
+    try:
+        m = mechs.load('aim')
+    except Exception:
+        return
+    dom = Domain(['a', 'b', 'c', 'd', 'e'], [2, 3, 2, 3, 2])
+    n = 150
+    rows = np.array([[r.randrange(s) for s in dom.shape] for _ in range(n)])
+    zeros = {('d', 'e'): [(0, 1), (2, 0)], ('e',): [], ('c', 'd'): [(1, 1)]}
+    for zc, cells in zeros.items():
+        idx = [dom.attrs.index(a) for a in zc]
+        for cell in cells:
+            rows = rows[~np.all(rows[:, idx] == np.array(cell), axis=1)]
+    data = Dataset(pd.DataFrame(rows, columns=list(dom.attrs)), dom)
+    orig_init = FactoredInference.__init__
+
+    def capped(self, *a, **kw):
+        orig_init(self, *a, **kw)
+        self.iters = min(self.iters, 60)
+    orig_est = FactoredInference.estimate
+
+    def est(self, *a, **kw):
+        self.iters = min(self.iters, 60)
+        return orig_est(self, *a, **kw)
+    FactoredInference.__init__, FactoredInference.estimate = capped, est
+    canon = {'mechanism': 'aim', 'zeros': {','.join(k): [list(c) for c in v] for k, v in zeros.items()}, 'workload': [['a', 'b'], ['b', 'c']]}
+    res.case(canon, True)
+    res.count('directed: AIM with structural zeros on attributes outside the workload')
+    bad = None
+    try:
+        np.random.seed(7)
+        with contextlib.redirect_stdout(io.StringIO()), np.errstate(all='ignore'):
+            mech = m.AIM(3.0, 1e-6, rounds=5, structural_zeros=zeros)
+            synth = mech.run(data, [(('a', 'b'), 1.0), (('b', 'c'), 1.0)])
+        df = synth.df
+        for zc, cells in zeros.items():
+            for cell in cells:
+                k = int(np.all(df[list(zc)].values == np.array(cell), axis=1).sum())
+                if k:
+                    bad = f'{k} synthetic record(s) of AIM lie in the structurally impossible cell {dict(zip(zc, cell))}'
+                    break
+            if bad:
+                break
+    except Exception as e:
+        bad = f'AIM with structural zeros raises {type(e).__name__}: {str(e)[:120]}'
+    finally:
+        FactoredInference.__init__, FactoredInference.estimate = orig_init, orig_est
+    if bad:
+        res.violation('failing-input', bad, {'request': canon, 'expected': bad}, key='zeros:mechanism:aim')
 
 
 def search(res, tier, seed, broken):
